@@ -21,7 +21,7 @@ RULE = ('corpus: every clause shape with 0..3 variables that occur only inside h
         'be byte-identical to the default-order output; (b) the whole corpus is compiled in fresh processes under '
         'PYTHONHASHSEED 0..5 (thorough 0..15) and the per-program digests must agree; (c) in one process every ordered pair '
         'of corpus programs (from a subset, incl. the same text under other options: debug_filename with different file names, the file API and the library\'s default options object, a CompilerContext instance) is compiled before the target and the target\'s output compared with its output '
-        'in a fresh state. states = distinct (program, output digest) pairs; transitions = compiler invocations; non-trivial '
+        'in a fresh state; (d) the whole corpus is compiled in one process in 3 orders (forward, reverse, interleaved: every program after every other one) and every output compared with the output of a child forked from a process that has never compiled anything. states = distinct (program, output digest) pairs; transitions = compiler invocations; non-trivial '
         '= the program has >= 2 fresh variables or a choice point was explored')
 ASSUMPTIONS = ['nondeterminism that does not flow through a call of set()/frozenset() by name (set displays, id() ordering, '
                'dict order of unhashable keys) is covered only by the process/seed runs (b) and the history runs (c)']
@@ -267,13 +267,75 @@ def run_seed(tier, seed):
     return json.loads(p.stdout)
 
 
+# ---------------------------------------------------------------- (d) sweeps over the whole corpus
+ZYGOTE = r'''
+import sys, json
+sys.path.insert(0, %(verif)r)
+from mc import impl
+from mc.checks import c18
+from mc.runner import in_child
+def job(texts):
+    out = None
+    for t in texts:
+        out = c18.compile_or_exc(t)
+    return c18.digest(out)
+jobs = json.load(sys.stdin)
+json.dump([in_child(job, j) for j in jobs], sys.stdout)
+'''
+
+
+def zygote(jobs):
+    """every job (a list of texts compiled one after the other) runs in its own child forked from a
+    process that has imported the compiler but never compiled anything: digest of the last output"""
+    p = subprocess.run([sys.executable, '-c', ZYGOTE % {'verif': VERIF}], input=json.dumps(jobs), capture_output=True, text=True, timeout=3000)
+    if p.returncode != 0:
+        raise RuntimeError('zygote failed: %s' % p.stderr[-2000:])
+    return json.loads(p.stdout)
+
+
+SWEEPS = ['forward', 'reverse', 'evens-then-odds-reversed']
+
+
+def sweep_order(cp, order):
+    if order == 'forward':
+        return list(cp)
+    if order == 'reverse':
+        return list(reversed(cp))
+    return list(cp[::2]) + list(reversed(cp[1::2]))
+
+
+def run_sweep(acc, tier, order):
+    cp = sweep_order(corpus(tier), order)
+    base = zygote([[t] for _, t in cp])
+    for i, (name, text) in enumerate(cp):
+        d = digest(compile_or_exc(text))
+        acc.n['evaluations'] += 1
+        acc.n['validated'] += 1
+        acc.n['transitions'] += 2
+        acc.n['nontrivial'] += 1 if i else 0
+        if d == base[i]:
+            acc.outcome((name, d))
+            continue
+        # name a single earlier program that is enough, if there is one
+        culprit = ''
+        if acc.n['sweep_minimisations'] < 2:
+            acc.n['sweep_minimisations'] += 1
+            pair = zygote([[t0, text] for _, t0 in cp[:i]])
+            hits = [cp[j] for j, dj in enumerate(pair) if dj != base[i]]
+            if hits:
+                culprit = '\nalready after compiling only this program before it in a fresh process:\n%s' % hits[0][1]
+        acc.violation('output-depends-on-earlier-compilations', (3, order, i), {'sweep': order, 'tier': tier, 'target': name},
+                      'program %s\n%s\ncompiled as number %d of the corpus in %s order gives another text (digest %s) than as the first compilation '
+                      'of a fresh process (digest %s)%s' % (name, text, i + 1, order, d, base[i], culprit), key='sweep|%s|%s' % (order, name))
+
+
 # ---------------------------------------------------------------- plan / run
 NSH = 16
 
 
 def plan(tier):
     seeds = range(6 if tier == 'quick' else 16)
-    return [('set', tier, k, NSH) for k in range(NSH)] + [('seed', tier, s) for s in seeds] + [('hist', tier, k, NSH) for k in range(NSH)]
+    return [('set', tier, k, NSH) for k in range(NSH)] + [('seed', tier, s) for s in seeds] + [('hist', tier, k, NSH) for k in range(NSH)] + [('sweep', tier, o) for o in SWEEPS]
 
 
 def run_shard(spec):
@@ -286,6 +348,8 @@ def run_shard(spec):
             explore_set_orders(acc, (0, idx), name, text, 1 if tier == 'quick' else 2)
             if idx % 53 == 0:
                 acc.sample({'program': text[:200]}, limit=1)
+    elif spec[0] == 'sweep':
+        run_sweep(acc, spec[1], spec[2])
     elif spec[0] == 'seed':
         _, tier, seed = spec
         mine = {name: digest(compile_or_exc(text)) for name, text in corpus(tier)}
@@ -362,6 +426,9 @@ def run_fresh(text, opts=None):
 
 def replay(case):
     acc = Acc()
+    if 'sweep' in case:
+        run_sweep(acc, case['tier'], case['sweep'])
+        return [(sig, g['detail']) for sig, g in acc.groups.items()]
     if 'plan' in case:
         explore_set_orders(acc, (0, 0), case['name'], case['text'], 2)
     elif 'seed' in case:
